@@ -3118,3 +3118,1166 @@ Theorem executed_iff_needed_repo g :
        (In s (dispatch_set g') <->
         ND_OPTIONAL < need_spec g' (s_key s) /\ g_threshold g' < need_spec g' (s_key s))).
 Proof. intros. apply executed_iff_needed_gen; try assumption. left. exact safe_merge_is_deepest. Qed.
+
+(* ------------------------------------------------------------------------------------------ *)
+(* Step.detach / Step.reattach: _ready and _implied_need                                        *)
+(* ------------------------------------------------------------------------------------------ *)
+
+(* ---- _ready under Step.detach / Step.reattach ---- *)
+
+(* same files and edges; step rows keep key and _ready; _check_ready only raised *)
+Definition rrel (g g' : graph) : Prop :=
+  g_files g' = g_files g /\ g_deps g' = g_deps g /\
+  exists F, g_steps g' = map F (g_steps g) /\
+    forall s, s_key (F s) = s_key s /\ s_ready (F s) = s_ready s /\
+              (s_chk_ready s = true -> s_chk_ready (F s) = true).
+
+Lemma rrel_refl g : rrel g g.
+Proof. split; [reflexivity|]. split; [reflexivity|]. exists (fun s => s). split; [symmetry; apply map_id | auto]. Qed.
+
+Lemma rrel_trans g g1 g2 : rrel g g1 -> rrel g1 g2 -> rrel g g2.
+Proof.
+  intros [Hf1 [Hd1 [F1 [E1 P1]]]] [Hf2 [Hd2 [F2 [E2 P2]]]].
+  split; [congruence|]. split; [congruence|]. exists (fun s => F2 (F1 s)).
+  split; [rewrite E2, E1, map_map; reflexivity|]. intros s.
+  destruct (P1 s) as [a [b c]]. destruct (P2 (F1 s)) as [a' [b' c']].
+  repeat split; try congruence. auto.
+Qed.
+
+Lemma rrel_only_flags g F : only_flags F -> rrel g (mapg F g).
+Proof.
+  intros O. split; [reflexivity|]. split; [reflexivity|]. exists F. split; [reflexivity|].
+  intros s. repeat split; [apply (k_key _ (of_keeps _ O)) | apply (of_ready _ O) | apply (of_cr _ O)].
+Qed.
+Lemma rrel_trigger g body self d : rrel g (run_trigger body self d g).
+Proof. rewrite run_trigger_mapg. apply rrel_only_flags. apply trigF_only_flags. Qed.
+Lemma rrel_flag_keys g c ks : rrel g (flag_keys c ks g).
+Proof. rewrite flag_keys_mapg. apply rrel_only_flags. apply flagF_only_flags. Qed.
+Lemma rrel_flag_with_products g k : rrel g (flag_with_products g k).
+Proof. unfold flag_with_products. eapply rrel_trans; apply rrel_flag_keys. Qed.
+Lemma rrel_set_place g k det cr :
+  rrel g (with_steps g (map (fun s => if s_key s =? k then set_place s det cr else s) (g_steps g))).
+Proof.
+  split; [reflexivity|]. split; [reflexivity|]. eexists. split; [reflexivity|].
+  intros s. cbv beta. destruct (s_key s =? k); repeat split; auto.
+Qed.
+
+Lemma rrel_ready_spec g g' k : rrel g g' -> ready_spec g' k = ready_spec g k.
+Proof.
+  intros [Hf [Hd _]]. unfold ready_spec, unavailable, find_file. rewrite Hf, Hd. reflexivity.
+Qed.
+
+Lemma rrel_sound g g' : rrel g g' -> FlagInv_ready g -> FlagInv_ready g'.
+Proof.
+  intros R HF s' Hin Hc. rewrite (rrel_ready_spec g g' _ R).
+  destruct R as [_ [_ [F [E P]]]]. rewrite E in Hin. apply in_map_iff in Hin. destruct Hin as [s [<- Hin]].
+  destruct (P s) as [Pk [Pr Pc]]. rewrite Pr, Pk. apply HF; [exact Hin|].
+  destruct (s_chk_ready s) eqn:Ec; [rewrite (Pc eq_refl) in Hc; discriminate | reflexivity].
+Qed.
+
+Lemma find_file_mapf (fm : file -> file) (l : list file) x :
+  (forall f, f_key (fm f) = f_key f) ->
+  find (fun f => f_key f =? x) (map fm l) = option_map fm (find (fun f => f_key f =? x) l).
+Proof.
+  intros Hk. induction l as [|a l IH]; [reflexivity|]. cbn [map find]. rewrite Hk.
+  destruct (f_key a =? x); [reflexivity | exact IH].
+Qed.
+
+Section SetDetached.
+  Variable g : graph.
+  Variable ks : list N.
+  Variable b : bool.
+  Hypothesis Htrg : In (FReady, TConsumersOfSelf) trg_node_detached.
+
+  Let sp := fun s => if mem_N (s_key s) ks then set_place s b (s_creator s) else s.
+  Let fp := fun f => if mem_N (f_key f) ks then set_fplace f b (f_creator f) else f.
+  Let op := fun o => if mem_N (o_key o) ks then set_oplace o b (o_creator o) else o.
+  Let g1 := mkGraph (map sp (g_steps g)) (map fp (g_files g)) (map op (g_others g))
+                    (g_deps g) (g_targets g) (g_tdirs g) (g_avail g) (g_threshold g).
+  Let flipped :=
+      map s_key (filter (fun s => mem_N (s_key s) ks && negb (Bool.eqb (s_detached s) b)) (g_steps g))
+      ++ map f_key (filter (fun f => mem_N (f_key f) ks && negb (Bool.eqb (f_detached f) b)) (g_files g))
+      ++ map o_key (filter (fun o => mem_N (o_key o) ks && negb (Bool.eqb (o_detached o) b)) (g_others g)).
+  Let stepf := fun (acc : graph) (k : N) => run_trigger trg_node_detached k None acc.
+
+  Lemma sdn_unfold : set_detached_nodes g ks b = fold_left stepf flipped g1.
+  Proof. reflexivity. Qed.
+
+  (* steps whose readiness may change: consumers of a file whose detached flag flips *)
+  Definition touched (t : N) : Prop :=
+    exists f, In f (g_files g) /\ mem_N (f_key f) ks = true /\ f_detached f <> b /\
+              In t (consumers_of_node g (f_key f)).
+
+  Lemma sdn_unavailable e : ~ touched (d_snk e) -> In e (g_deps g) -> unavailable g1 e = unavailable g e.
+  Proof.
+    intros Ht He. unfold unavailable, find_file. cbn [g_files g1].
+    rewrite find_file_mapf by (intros f; unfold fp; destruct (mem_N (f_key f) ks); reflexivity).
+    destruct (find (fun f => f_key f =? d_src e) (g_files g)) as [f|] eqn:Ef; [|reflexivity].
+    cbn [option_map]. apply find_some in Ef. destruct Ef as [Hin Ek]. apply N.eqb_eq in Ek.
+    unfold fp. destruct (mem_N (f_key f) ks) eqn:Em; [|reflexivity].
+    destruct (Bool.eqb (f_detached f) b) eqn:Eb.
+    - apply eqb_prop in Eb. unfold ienv, set_fplace. cbn. rewrite Eb. reflexivity.
+    - exfalso. apply Ht. exists f. repeat split; try assumption.
+      + intros E. rewrite E, eqb_reflx in Eb. discriminate.
+      + unfold consumers_of_node. apply in_map_iff. exists e. split; [reflexivity|].
+        apply filter_In. split; [exact He | apply N.eqb_eq; congruence].
+  Qed.
+
+  Lemma sdn_ready_spec t : ~ touched t -> ready_spec g1 t = ready_spec g t.
+  Proof.
+    intros Ht. apply ready_spec_ext; [reflexivity|]. intros e He Es. apply sdn_unavailable; [rewrite Es; exact Ht | exact He].
+  Qed.
+
+  Lemma sdn_rrel_fold l : forall acc, rrel g1 acc -> rrel g1 (fold_left stepf l acc).
+  Proof.
+    intros acc Ha. apply (fold_inv stepf (rrel g1)); [exact Ha|].
+    intros a x Hx. eapply rrel_trans; [exact Hx | apply rrel_trigger].
+  Qed.
+
+  Definition flagged_at (t : N) (acc : graph) : Prop :=
+    forall r, In r (g_steps acc) -> s_key r = t -> s_chk_ready r = true.
+
+  Lemma flagged_at_step t acc x : g_deps acc = g_deps g -> flagged_at t acc -> flagged_at t (stepf acc x).
+  Proof.
+    intros _ HP r Hin Hk. unfold stepf in Hin. rewrite run_trigger_mapg in Hin.
+    unfold mapg in Hin. cbn [g_steps with_steps] in Hin. apply in_map_iff in Hin. destruct Hin as [r0 [<- Hin]].
+    pose proof (trigF_only_flags acc trg_node_detached x None) as O.
+    apply (of_cr _ O). apply HP; [exact Hin|]. rewrite <- Hk. symmetry. apply (k_key _ (of_keeps _ O)).
+  Qed.
+
+  Lemma flagged_after t acc kf : g_deps acc = g_deps g -> In t (consumers_of_node g kf) ->
+    flagged_at t (stepf acc kf).
+  Proof.
+    intros Hd Ht r Hin Hk. unfold stepf in Hin. rewrite run_trigger_mapg in Hin.
+    unfold mapg in Hin. cbn [g_steps with_steps] in Hin. apply in_map_iff in Hin. destruct Hin as [r0 [<- Hin]].
+    pose proof (trigF_only_flags acc trg_node_detached kf None) as O.
+    apply (trigF_sets acc trg_node_detached kf None FReady TConsumersOfSelf r0 Htrg).
+    cbn [target_keys]. unfold consumers_of_node. rewrite Hd.
+    rewrite (k_key _ (of_keeps _ O)) in Hk. rewrite Hk. exact Ht.
+  Qed.
+
+  Lemma sdn_deps_fold l : forall acc, g_deps acc = g_deps g -> g_deps (fold_left stepf l acc) = g_deps g.
+  Proof.
+    induction l as [|x l IH]; intros acc Ha; [exact Ha|]. cbn [fold_left]. apply IH.
+    unfold stepf. rewrite run_trigger_mapg. exact Ha.
+  Qed.
+
+  Lemma sdn_flagged_fold t kf : In kf flipped -> In t (consumers_of_node g kf) ->
+    flagged_at t (fold_left stepf flipped g1).
+  Proof.
+    intros Hkf Ht.
+    (* carry "deps unchanged" along with the property *)
+    assert (H : forall l acc, g_deps acc = g_deps g -> (flagged_at t acc \/ In kf l) ->
+                flagged_at t (fold_left stepf l acc)).
+    { induction l as [|x l IH]; intros acc Hd Hor; cbn [fold_left].
+      - destruct Hor as [Hf|[]]. exact Hf.
+      - apply IH; [unfold stepf; rewrite run_trigger_mapg; exact Hd|].
+        destruct Hor as [Hf|[->|Hin]].
+        + left. apply flagged_at_step; assumption.
+        + left. apply flagged_after; assumption.
+        + right. exact Hin. }
+    apply H; [reflexivity | right; exact Hkf].
+  Qed.
+
+  Theorem set_detached_nodes_ready_sound : FlagInv_ready g -> FlagInv_ready (set_detached_nodes g ks b).
+  Proof.
+    intros HF. rewrite sdn_unfold. set (gF := fold_left stepf flipped g1).
+    assert (R : rrel g1 gF) by (apply sdn_rrel_fold; apply rrel_refl).
+    intros s' Hin Hc. rewrite (rrel_ready_spec g1 gF _ R).
+    pose proof R as [_ [_ [F [E P]]]]. rewrite E in Hin. apply in_map_iff in Hin.
+    destruct Hin as [s1 [<- Hin1]]. cbn [g_steps g1] in Hin1. apply in_map_iff in Hin1.
+    destruct Hin1 as [s [<- Hin]].
+    destruct (P (sp s)) as [Pk [Pr Pc]].
+    assert (Hsp : s_key (sp s) = s_key s /\ s_ready (sp s) = s_ready s /\ s_chk_ready (sp s) = s_chk_ready s).
+    { unfold sp. destruct (mem_N (s_key s) ks); repeat split; reflexivity. }
+    destruct Hsp as [Sk [Sr Sc]]. rewrite Pr, Pk, Sr, Sk.
+    assert (Hnt : ~ touched (s_key s)).
+    { intros [f [Hf [Hm [Hd Ht]]]].
+      assert (Hfl : flagged_at (s_key s) gF).
+      { apply (sdn_flagged_fold (s_key s) (f_key f)); [|exact Ht].
+        unfold flipped. apply in_or_app. right. apply in_or_app. left. apply in_map. apply filter_In.
+        split; [exact Hf|]. rewrite Hm. cbn [andb]. apply negb_true_iff.
+        destruct (Bool.eqb (f_detached f) b) eqn:Eb; [apply eqb_prop in Eb; contradiction | reflexivity]. }
+      rewrite (Hfl (F (sp s))) in Hc; [discriminate | rewrite E; apply in_map; cbn [g_steps g1]; apply in_map; exact Hin |].
+      rewrite Pk. exact Sk. }
+    rewrite (sdn_ready_spec _ Hnt). apply HF; [exact Hin|].
+    destruct (s_chk_ready s) eqn:Ec; [|reflexivity].
+    assert (Ec' : s_chk_ready (sp s) = true) by congruence.
+    rewrite (Pc Ec') in Hc. discriminate.
+  Qed.
+End SetDetached.
+
+Theorem detach_step_ready_sound g k :
+  In (FReady, TConsumersOfSelf) trg_node_detached -> FlagInv_ready g -> FlagInv_ready (detach_step g k).
+Proof.
+  intros Htrg HF. unfold detach_step. destruct (find_step g k) as [s0|]; [|exact HF].
+  set (g2 := match s_creator s0 with Some _ => _ | None => g end).
+  assert (H2 : FlagInv_ready g2).
+  { unfold g2. destruct (s_creator s0); [|exact HF].
+    assert (H1 : FlagInv_ready (with_steps (set_detached_nodes g [k] true)
+               (map (fun s => if s_key s =? k then set_place s true None else s)
+                    (g_steps (set_detached_nodes g [k] true))))).
+    { eapply rrel_sound; [apply rrel_set_place|]. apply set_detached_nodes_ready_sound; assumption. }
+    destruct (s_detached s0); [exact H1|]. apply set_detached_nodes_ready_sound; assumption. }
+  eapply rrel_sound; [|exact H2].
+  eapply rrel_trans; [apply rrel_flag_with_products|]. unfold flag_after_sources. apply rrel_flag_keys.
+Qed.
+
+Theorem reattach_step_ready_sound g k c cdet :
+  In (FReady, TConsumersOfSelf) trg_node_detached -> FlagInv_ready g -> FlagInv_ready (reattach_step g k c cdet).
+Proof.
+  intros Htrg HF. unfold reattach_step.
+  eapply rrel_sound; [apply rrel_flag_with_products|].
+  apply set_detached_nodes_ready_sound; [exact Htrg|].
+  eapply rrel_sound; [apply rrel_set_place|].
+  apply set_detached_nodes_ready_sound; assumption.
+Qed.
+
+(* ---- _implied_need under Step.detach / Step.reattach ---- *)
+
+(* how a stage rewrites the tables: edges/targets untouched; rows keep everything the need
+   specification reads except `detached`, which changes by phi(key, old value); flags only raised;
+   creators kept except for the step k *)
+Record drel (k : N) (phi phif : N -> bool -> bool) (g g' : graph) (F : step -> step) (H : file -> file)
+            (O : onode -> onode) : Prop := {
+  dr_deps : g_deps g' = g_deps g;
+  dr_targets : g_targets g' = g_targets g;
+  dr_tdirs : g_tdirs g' = g_tdirs g;
+  dr_steps : g_steps g' = map F (g_steps g);
+  dr_files : g_files g' = map H (g_files g);
+  dr_others : g_others g' = map O (g_others g);
+  dr_key : forall s, s_key (F s) = s_key s;
+  dr_need : forall s, s_need (F s) = s_need s;
+  dr_ineed : forall s, s_ineed (F s) = s_ineed s;
+  dr_tail : forall s, s_tail (F s) = s_tail s;
+  dr_dur : forall s, s_duration (F s) = s_duration s;
+  dr_ca : forall s, s_chk_after s = true -> s_chk_after (F s) = true;
+  dr_cr : forall s, s_key s <> k -> s_creator (F s) = s_creator s;
+  dr_sdet : forall s, s_detached (F s) = phi (s_key s) (s_detached s);
+  dr_fkey : forall f, f_key (H f) = f_key f;
+  dr_flabel : forall f, f_label (H f) = f_label f;
+  dr_fstate : forall f, f_state (H f) = f_state f;
+  dr_fcr : forall f, f_key f <> k -> f_creator (H f) = f_creator f;
+  dr_fdet : forall f, f_detached (H f) = phif (f_key f) (f_detached f);
+  dr_okey : forall o, o_key (O o) = o_key o;
+  dr_ocr : forall o, o_creator (O o) = o_creator o }.
+
+Arguments dr_deps {k phi phif g g' F H O} _.
+Arguments dr_targets {k phi phif g g' F H O} _.
+Arguments dr_tdirs {k phi phif g g' F H O} _.
+Arguments dr_steps {k phi phif g g' F H O} _.
+Arguments dr_files {k phi phif g g' F H O} _.
+Arguments dr_others {k phi phif g g' F H O} _.
+Arguments dr_key {k phi phif g g' F H O} _.
+Arguments dr_need {k phi phif g g' F H O} _.
+Arguments dr_ineed {k phi phif g g' F H O} _.
+Arguments dr_tail {k phi phif g g' F H O} _.
+Arguments dr_dur {k phi phif g g' F H O} _.
+Arguments dr_ca {k phi phif g g' F H O} _.
+Arguments dr_cr {k phi phif g g' F H O} _.
+Arguments dr_sdet {k phi phif g g' F H O} _.
+Arguments dr_fkey {k phi phif g g' F H O} _.
+Arguments dr_flabel {k phi phif g g' F H O} _.
+Arguments dr_fstate {k phi phif g g' F H O} _.
+Arguments dr_fcr {k phi phif g g' F H O} _.
+Arguments dr_fdet {k phi phif g g' F H O} _.
+Arguments dr_okey {k phi phif g g' F H O} _.
+Arguments dr_ocr {k phi phif g g' F H O} _.
+
+Definition drel_ex k phi phif g g' : Prop := exists F H O, drel k phi phif g g' F H O.
+
+Lemma drel_refl k g : drel_ex k (fun _ d => d) (fun _ d => d) g g.
+Proof.
+  exists (fun s => s), (fun f => f), (fun o => o).
+  constructor; try reflexivity; try (symmetry; apply map_id); auto.
+Qed.
+
+Lemma drel_trans k phi1 phi2 phif1 phif2 g g1 g2 :
+  drel_ex k phi1 phif1 g g1 -> drel_ex k phi2 phif2 g1 g2 ->
+  drel_ex k (fun x d => phi2 x (phi1 x d)) (fun x d => phif2 x (phif1 x d)) g g2.
+Proof.
+  intros [F1 [H1 [O1 R1]]] [F2 [H2 [O2 R2]]].
+  exists (fun s => F2 (F1 s)), (fun f => H2 (H1 f)), (fun o => O2 (O1 o)).
+  constructor.
+  - rewrite (dr_deps R2). apply (dr_deps R1).
+  - rewrite (dr_targets R2). apply (dr_targets R1).
+  - rewrite (dr_tdirs R2). apply (dr_tdirs R1).
+  - rewrite (dr_steps R2), (dr_steps R1), map_map. reflexivity.
+  - rewrite (dr_files R2), (dr_files R1), map_map. reflexivity.
+  - rewrite (dr_others R2), (dr_others R1), map_map. reflexivity.
+  - intros s. rewrite (dr_key R2). apply (dr_key R1).
+  - intros s. rewrite (dr_need R2). apply (dr_need R1).
+  - intros s. rewrite (dr_ineed R2). apply (dr_ineed R1).
+  - intros s. rewrite (dr_tail R2). apply (dr_tail R1).
+  - intros s. rewrite (dr_dur R2). apply (dr_dur R1).
+  - intros s Hs. apply (dr_ca R2), (dr_ca R1), Hs.
+  - intros s Hs. rewrite (dr_cr R2), (dr_cr R1); [reflexivity | exact Hs | rewrite (dr_key R1); exact Hs].
+  - intros s. rewrite (dr_sdet R2), (dr_sdet R1), (dr_key R1). reflexivity.
+  - intros f. rewrite (dr_fkey R2). apply (dr_fkey R1).
+  - intros f. rewrite (dr_flabel R2). apply (dr_flabel R1).
+  - intros f. rewrite (dr_fstate R2). apply (dr_fstate R1).
+  - intros f Hf. rewrite (dr_fcr R2), (dr_fcr R1); [reflexivity | exact Hf | rewrite (dr_fkey R1); exact Hf].
+  - intros f. rewrite (dr_fdet R2), (dr_fdet R1), (dr_fkey R1). reflexivity.
+  - intros o. rewrite (dr_okey R2). apply (dr_okey R1).
+  - intros o. rewrite (dr_ocr R2). apply (dr_ocr R1).
+Qed.
+
+Lemma drel_only_flags k g F : only_flags F -> drel_ex k (fun _ d => d) (fun _ d => d) g (mapg F g).
+Proof.
+  intros OF. pose proof (of_keeps F OF) as K.
+  exists F, (fun f => f), (fun o => o).
+  constructor; try reflexivity; try (symmetry; apply map_id); auto; intros s; try apply K; try apply OF.
+  intros _. apply K.
+Qed.
+Lemma drel_trigger k g body self d : drel_ex k (fun _ d => d) (fun _ d => d) g (run_trigger body self d g).
+Proof. rewrite run_trigger_mapg. apply drel_only_flags. apply trigF_only_flags. Qed.
+Lemma drel_flag_keys k g c ks : drel_ex k (fun _ d => d) (fun _ d => d) g (flag_keys c ks g).
+Proof. rewrite flag_keys_mapg. apply drel_only_flags. apply flagF_only_flags. Qed.
+
+Lemma drel_phi_ext k phi phi' phif phif' g g' :
+  (forall x d, phi x d = phi' x d) -> (forall x d, phif x d = phif' x d) ->
+  drel_ex k phi phif g g' -> drel_ex k phi' phif' g g'.
+Proof.
+  intros E E' [F [H [O R]]]. exists F, H, O. destruct R. constructor; auto.
+  - intros s. rewrite <- E. auto.
+  - intros f. rewrite <- E'. auto.
+Qed.
+
+Lemma drel_flag_with_products k g x : drel_ex k (fun _ d => d) (fun _ d => d) g (flag_with_products g x).
+Proof.
+  unfold flag_with_products.
+  eapply drel_phi_ext; [| |eapply drel_trans; apply drel_flag_keys]; reflexivity.
+Qed.
+
+
+Lemma drel_set_place k g det cr :
+  drel_ex k (fun x d => if x =? k then det else d) (fun _ d => d) g
+    (with_steps g (map (fun s => if s_key s =? k then set_place s det cr else s) (g_steps g))).
+Proof.
+  exists (fun s => if s_key s =? k then set_place s det cr else s), (fun f => f), (fun o => o).
+  constructor; try reflexivity; try (symmetry; apply map_id); auto;
+    try (intros s; destruct (s_key s =? k) eqn:E; auto; fail).
+  intros s Hs. destruct (s_key s =? k) eqn:E; [apply N.eqb_eq in E; contradiction | reflexivity].
+Qed.
+
+Lemma drel_set_detached k g ks b :
+  drel_ex k (fun x d => if mem_N x ks then b else d) (fun x d => if mem_N x ks then b else d) g
+          (set_detached_nodes g ks b).
+Proof.
+  unfold set_detached_nodes.
+  match goal with |- drel_ex _ _ _ g (fold_left ?f ?l ?a) =>
+    apply (fold_inv f (drel_ex k (fun x d => if mem_N x ks then b else d) (fun x d => if mem_N x ks then b else d) g) l a) end.
+  - exists (fun s => if mem_N (s_key s) ks then set_place s b (s_creator s) else s),
+           (fun f => if mem_N (f_key f) ks then set_fplace f b (f_creator f) else f),
+           (fun o => if mem_N (o_key o) ks then set_oplace o b (o_creator o) else o).
+    constructor; try reflexivity;
+      try (intros s; destruct (mem_N (s_key s) ks); auto; fail);
+      try (intros f; destruct (mem_N (f_key f) ks); auto; fail);
+      try (intros o; destruct (mem_N (o_key o) ks); auto; fail).
+  - intros a x Ha. eapply drel_phi_ext; [| |eapply drel_trans; [exact Ha | apply drel_trigger]]; reflexivity.
+Qed.
+
+(* ---- the creator forest below k does not depend on k's own creator ---- *)
+
+Definition fr (k : N) (nc nc' : list (N * option N)) : Prop :=
+  Forall2 (fun a a' => fst a = fst a' /\ (fst a <> k -> snd a = snd a')) nc nc'.
+
+Lemma Forall2_map_same {A B} (R : B -> B -> Prop) (f f' : A -> B) l :
+  (forall x, R (f x) (f' x)) -> Forall2 R (map f l) (map f' l).
+Proof. intros H. induction l; cbn; constructor; auto. Qed.
+
+Lemma more_fr k acc nc nc' : In k acc -> fr k nc nc' ->
+  map fst (filter (fun kc => match snd kc with
+                            | Some c => mem_N c acc && negb (mem_N (fst kc) acc)
+                            | None => false end) nc) =
+  map fst (filter (fun kc : N * option N => match snd kc with
+                            | Some c => mem_N c acc && negb (mem_N (fst kc) acc)
+                            | None => false end) nc').
+Proof.
+  intros Hk Hfr. induction Hfr as [|a a' l l' [Hf Hs] _ IH]; [reflexivity|].
+  cbn [filter].
+  assert (Hc : (match snd a with Some c => mem_N c acc && negb (mem_N (fst a) acc) | None => false end) =
+               (match snd a' with Some c => mem_N c acc && negb (mem_N (fst a') acc) | None => false end)).
+  { destruct (N.eq_dec (fst a) k) as [E|E].
+    - assert (Hm : mem_N k acc = true) by (apply mem_N_In; exact Hk).
+      rewrite <- Hf, E, Hm. cbn [negb]. destruct (snd a), (snd a'); rewrite ?andb_false_r; reflexivity.
+    - rewrite <- (Hs E), <- Hf. reflexivity. }
+  rewrite <- Hc. destruct (match snd a with Some c => _ | None => false end); cbn [map]; rewrite ?Hf, IH; reflexivity.
+Qed.
+
+Lemma below_fuel_fr k n : forall nc nc' acc, In k acc -> fr k nc nc' ->
+  below_fuel n nc acc = below_fuel n nc' acc.
+Proof.
+  induction n as [|n IH]; intros nc nc' acc Hk Hfr; [reflexivity|].
+  cbn [below_fuel]. rewrite (more_fr k acc nc nc' Hk Hfr).
+  destruct (map fst (filter _ nc')) eqn:E; [reflexivity|].
+  apply IH; [apply in_or_app; left; exact Hk | exact Hfr].
+Qed.
+
+Lemma node_creators_fr k phi phif g g' : drel_ex k phi phif g g' -> fr k (node_creators g) (node_creators g').
+Proof.
+  intros [F [H [O R]]]. unfold fr, node_creators.
+  rewrite (dr_steps R), (dr_files R), (dr_others R), !map_map.
+  apply Forall2_app; [|apply Forall2_app]; apply Forall2_map_same; intros x; cbn [fst snd].
+  - split; [symmetry; apply (dr_key R) | intros Hx; symmetry; apply (dr_cr R); exact Hx].
+  - split; [symmetry; apply (dr_fkey R) | intros Hx; symmetry; apply (dr_fcr R); exact Hx].
+  - split; [symmetry; apply (dr_okey R) | intros _; symmetry; apply (dr_ocr R)].
+Qed.
+
+Lemma Forall2_len {A B} (R : A -> B -> Prop) l l' : Forall2 R l l' -> length l = length l'.
+Proof. induction 1; cbn; congruence. Qed.
+
+Lemma below_drel k phi phif g g' : drel_ex k phi phif g g' -> below g' k = below g k.
+Proof.
+  intros R. pose proof (node_creators_fr k phi phif g g' R) as Hfr. unfold below.
+  rewrite <- (Forall2_len _ _ _ Hfr).
+  rewrite (below_fuel_fr k _ (node_creators g) (node_creators g') [k]); [reflexivity | left; reflexivity | exact Hfr].
+Qed.
+
+Lemma find_step_drel k phi phif g g' F H O x : drel k phi phif g g' F H O ->
+  find_step g' x = option_map F (find_step g x).
+Proof. intros R. unfold find_step. rewrite (dr_steps R). apply find_map_key. apply (dr_key R). Qed.
+
+Lemma step_subtree_drel k phi phif g g' : drel_ex k phi phif g g' -> step_subtree g' k = step_subtree g k.
+Proof.
+  intros R. unfold step_subtree. rewrite (below_drel k phi phif g g' R). f_equal.
+  destruct R as [F [H [O R]]]. apply filter_ext. intros x.
+  rewrite (find_step_drel k phi phif g g' F H O x R). destruct (find_step g x); reflexivity.
+Qed.
+
+(* ---- the general step: the nodes of S become detached (or attached) ---- *)
+
+Section SubtreeFlip.
+  Variables (g g' : graph) (k : N) (S : list N) (b : bool).
+  Variables (F : step -> step) (H : file -> file) (O : onode -> onode).
+  Let phi := fun (x : N) (d : bool) => if mem_N x S then b else d.
+  Hypothesis R : drel k phi phi g g' F H O.
+  Hypothesis Hwf : WF g.
+
+  (* a file of S is produced only by steps of S (outputs are created by their producer) *)
+  Hypothesis Hout : forall d f, In d (g_deps g) -> find_file g (d_snk d) = Some f ->
+    mem_N (f_key f) S = true -> mem_N (d_src d) S = true.
+
+  Lemma sf_find_file x : find_file g' x = option_map H (find_file g x).
+  Proof. unfold find_file. rewrite (dr_files R). apply find_file_mapf. apply (dr_fkey R). Qed.
+
+  Lemma sf_outputs x : outputs g' x = map H (outputs g x).
+  Proof.
+    unfold outputs. rewrite (dr_deps R).
+    assert (Hl : forall l,
+      flat_map (fun d => if d_src d =? x then match find_file g' (d_snk d) with Some f => [f] | None => [] end else []) l =
+      map H (flat_map (fun d => if d_src d =? x then match find_file g (d_snk d) with Some f => [f] | None => [] end else []) l)).
+    { induction l as [|d l IH]; [reflexivity|]. cbn [flat_map]. rewrite map_app, IH. f_equal.
+      destruct (d_src d =? x); [|reflexivity]. rewrite sf_find_file.
+      destruct (find_file g (d_snk d)); reflexivity. }
+    apply Hl.
+  Qed.
+
+  Lemma sf_local_k x : mem_N x S = false -> local_k g' x = local_k g x.
+  Proof.
+    intros Hx. unfold local_k. rewrite (find_step_drel k phi phi g g' F H O x R).
+    destruct (find_step g x) as [s|] eqn:Ef; [|reflexivity]. cbn [option_map].
+    apply find_step_some in Ef. destruct Ef as [_ Ek].
+    unfold local_need, elev. rewrite (dr_key R), (dr_need R), Ek, sf_outputs.
+    assert (Hreg : forall f, In f (outputs g x) -> regular_output (H f) = regular_output f /\ f_label (H f) = f_label f).
+    { intros f Hf. split; [|apply (dr_flabel R)]. rewrite !regular_output_meaning, (dr_fstate R), (dr_fdet R).
+      unfold phi. destruct (mem_N (f_key f) S) eqn:Em; [|reflexivity]. exfalso.
+      unfold outputs in Hf. apply in_flat_map in Hf. destruct Hf as [d [Hd Hf]].
+      destruct (d_src d =? x) eqn:Es; [|destruct Hf]. apply N.eqb_eq in Es.
+      destruct (find_file g (d_snk d)) as [f0|] eqn:Eff; [|destruct Hf]. destruct Hf as [<-|[]].
+      rewrite (Hout d f0 Hd Eff Em) in Hx || (rewrite <- Es in Hx; rewrite (Hout d f0 Hd Eff Em) in Hx). discriminate. }
+    assert (He : forall (p q : file -> bool) l, (forall f, In f l -> p (H f) = q f) -> existsb p (map H l) = existsb q l).
+    { intros p q l. induction l as [|a l IH]; intros Hl; [reflexivity|]. cbn [map existsb].
+      rewrite (Hl a (or_introl eq_refl)), IH; [reflexivity | intros; apply Hl; right; assumption]. }
+    rewrite (He (fun f => regular_output f && is_target g' f) (fun f => regular_output f && is_target g f)).
+    - rewrite (He (fun f => regular_output f && in_tdir g' f) (fun f => regular_output f && in_tdir g f)); [reflexivity|].
+      intros f Hf. destruct (Hreg f Hf) as [-> Hl]. unfold in_tdir. rewrite Hl, (dr_tdirs R). reflexivity.
+    - intros f Hf. destruct (Hreg f Hf) as [-> Hl]. unfold is_target. rewrite Hl, (dr_targets R). reflexivity.
+  Qed.
+
+  Lemma sf_vals_of x : vals_of g' x = vals_of g x.
+  Proof.
+    unfold vals_of. rewrite (find_step_drel k phi phi g g' F H O x R).
+    destruct (find_step g x); [|reflexivity]. cbn [option_map]. rewrite (dr_ineed R), (dr_tail R). reflexivity.
+  Qed.
+
+  (* consumers in g' : those of g whose attachment after the flip is "attached" *)
+  Lemma sf_cons_spec x y : In y (cons_keys g' x) <->
+    exists d1 d2 sy, In d1 (g_deps g) /\ In d2 (g_deps g) /\ d_src d1 = x /\ d_src d2 = d_snk d1 /\
+                     find_step g (d_snk d2) = Some sy /\ phi (s_key sy) (s_detached sy) = false /\ y = s_key sy.
+  Proof.
+    rewrite cons_keys_spec, (dr_deps R). split.
+    - intros [d1 [d2 [sy' [H1 [H2 [E1 [E2 [Ef [Ed ->]]]]]]]]].
+      rewrite (find_step_drel k phi phi g g' F H O _ R) in Ef.
+      destruct (find_step g (d_snk d2)) as [sy|] eqn:E; [|discriminate]. cbn in Ef. injection Ef as <-.
+      exists d1, d2, sy. rewrite (dr_sdet R) in Ed. rewrite (dr_key R). repeat split; assumption.
+    - intros [d1 [d2 [sy [H1 [H2 [E1 [E2 [Ef [Ed ->]]]]]]]]].
+      exists d1, d2, (F sy). rewrite (find_step_drel k phi phi g g' F H O _ R), Ef, (dr_sdet R), (dr_key R).
+      repeat split; assumption.
+  Qed.
+
+  Lemma sf_seed0 y : In y (seed0 g) -> mem_N y S = false -> In y (seed0 g').
+  Proof.
+    unfold seed0. rewrite (dr_steps R). intros Hy Hm.
+    apply in_map_iff in Hy. destruct Hy as [s [<- Hs]]. apply filter_In in Hs. destruct Hs as [Hin Hc].
+    apply andb_true_iff in Hc. destruct Hc as [Hd Hc]. rewrite <- (dr_key R s).
+    apply in_map. apply filter_In. split; [apply in_map; exact Hin|].
+    rewrite (dr_sdet R), (dr_ca R s Hc). unfold phi. rewrite Hm, Hd. reflexivity.
+  Qed.
+
+  (* the nodes of S become detached: producers of consumers in S must have been flagged *)
+  Theorem detach_like_need_sound :
+    b = true ->
+    (forall p y, In p (g_steps g) -> s_detached p = false -> mem_N (s_key p) S = false ->
+       In y (cons_keys g (s_key p)) -> mem_N y S = true ->
+       forall r', In r' (g_steps g') -> s_key r' = s_key p -> s_chk_after r' = true) ->
+    FlagInv_need g -> FlagInv_need g'.
+  Proof.
+    intros Hb Hsrc' HF s' Hin' Hd Hc Hy.
+    assert (Hsrc : forall p y, In p (g_steps g) -> s_detached p = false -> mem_N (s_key p) S = false ->
+       In y (cons_keys g (s_key p)) -> mem_N y S = true -> s_chk_after (F p) = true).
+    { intros p y Hp Hdp Hmp Hyp Hmy. apply (Hsrc' p y Hp Hdp Hmp Hyp Hmy).
+      - rewrite (dr_steps R). apply in_map. exact Hp.
+      - apply (dr_key R). } rewrite (dr_steps R) in Hin'.
+    apply in_map_iff in Hin'. destruct Hin' as [s [<- Hin]].
+    rewrite (dr_sdet R) in Hd. unfold phi in Hd. rewrite Hb in Hd.
+    destruct (mem_N (s_key s) S) eqn:Em; [discriminate|].
+    rewrite (dr_key R) in *. rewrite (dr_ineed R).
+    assert (Hs0 : s_chk_after s = false).
+    { destruct (s_chk_after s) eqn:E; [|reflexivity]. rewrite (dr_ca R s E) in Hc. discriminate. }
+    assert (Hset : forall y, In y (cons_keys g' (s_key s)) <-> In y (cons_keys g (s_key s))).
+    { intros y. rewrite sf_cons_spec, cons_keys_spec. split.
+      - intros [d1 [d2 [sy [H1 [H2 [E1 [E2 [Ef [Ed ->]]]]]]]]]. exists d1, d2, sy.
+        unfold phi in Ed. rewrite Hb in Ed. destruct (mem_N (s_key sy) S); [discriminate|]. repeat split; assumption.
+      - intros [d1 [d2 [sy [H1 [H2 [E1 [E2 [Ef [Ed ->]]]]]]]]]. exists d1, d2, sy.
+        repeat split; try assumption. unfold phi. destruct (mem_N (s_key sy) S) eqn:Ems; [|exact Ed].
+        exfalso. rewrite (Hsrc s (s_key sy) Hin Hd Em) in Hc; [discriminate| |exact Ems].
+        apply cons_keys_spec. exists d1, d2, sy. repeat split; assumption. }
+    assert (Hmem : forall y, In y (cons_keys g (s_key s)) -> mem_N y S = false).
+    { intros y Hyc. apply Hset in Hyc. apply sf_cons_spec in Hyc.
+      destruct Hyc as [d1 [d2 [sy [_ [_ [_ [_ [_ [Ed ->]]]]]]]]]. unfold phi in Ed. rewrite Hb in Ed.
+      destruct (mem_N (s_key sy) S); [discriminate | reflexivity]. }
+    rewrite (HF s Hin Hd Hs0).
+    - unfold new_val. cbn [fst]. rewrite (sf_local_k _ Em). f_equal.
+      rewrite (maxl_set_ext _ (fun y => fst (vals_of g' y)) _ _ Hset).
+      f_equal. apply map_ext. intros y. rewrite sf_vals_of. reflexivity.
+    - intros y Hyc Hys. apply (Hy y); [apply Hset; exact Hyc | apply sf_seed0; [exact Hys | apply Hmem; exact Hyc]].
+  Qed.
+
+  (* the nodes of S become attached: the steps of S must be flagged *)
+  Theorem attach_like_need_sound :
+    b = false ->
+    (forall r', In r' (g_steps g') -> mem_N (s_key r') S = true -> s_chk_after r' = true) ->
+    FlagInv_need g -> FlagInv_need g'.
+  Proof.
+    intros Hb Hfl' HF s' Hin' Hd Hc Hy.
+    assert (Hfl : forall s, In s (g_steps g) -> mem_N (s_key s) S = true -> s_chk_after (F s) = true).
+    { intros s Hs Hm. apply Hfl'; [rewrite (dr_steps R); apply in_map; exact Hs | rewrite (dr_key R); exact Hm]. } rewrite (dr_steps R) in Hin'.
+    apply in_map_iff in Hin'. destruct Hin' as [s [<- Hin]].
+    destruct (mem_N (s_key s) S) eqn:Em; [rewrite (Hfl s Hin Em) in Hc; discriminate|].
+    rewrite (dr_sdet R) in Hd. unfold phi in Hd. rewrite Em in Hd.
+    rewrite (dr_key R) in *. rewrite (dr_ineed R).
+    assert (Hs0 : s_chk_after s = false).
+    { destruct (s_chk_after s) eqn:E; [|reflexivity]. rewrite (dr_ca R s E) in Hc. discriminate. }
+    (* a consumer inside S would be attached and flagged in g' *)
+    assert (Hmem : forall y, In y (cons_keys g' (s_key s)) -> mem_N y S = false).
+    { intros y Hyc. destruct (mem_N y S) eqn:Ey; [|reflexivity]. exfalso. apply (Hy y Hyc).
+      pose proof Hyc as Hyc'. apply sf_cons_spec in Hyc'.
+      destruct Hyc' as [d1 [d2 [sy [_ [_ [_ [_ [Ef [Ed ->]]]]]]]]].
+      apply find_step_some in Ef. destruct Ef as [Hsy _].
+      unfold seed0. rewrite (dr_steps R). rewrite <- (dr_key R sy). apply in_map. apply filter_In.
+      split; [apply in_map; exact Hsy|]. rewrite (dr_sdet R), Ed, (Hfl sy Hsy Ey). reflexivity. }
+    assert (Hset : forall y, In y (cons_keys g' (s_key s)) <-> In y (cons_keys g (s_key s))).
+    { intros y. split.
+      - intros Hyc. pose proof (Hmem y Hyc) as Hm. apply sf_cons_spec in Hyc. apply cons_keys_spec.
+        destruct Hyc as [d1 [d2 [sy [H1 [H2 [E1 [E2 [Ef [Ed ->]]]]]]]]]. exists d1, d2, sy.
+        unfold phi in Ed. rewrite Hm in Ed. repeat split; assumption.
+      - intros Hyc. apply sf_cons_spec. apply cons_keys_spec in Hyc.
+        destruct Hyc as [d1 [d2 [sy [H1 [H2 [E1 [E2 [Ef [Ed ->]]]]]]]]]. exists d1, d2, sy.
+        repeat split; try assumption. unfold phi. rewrite Hb. destruct (mem_N (s_key sy) S); [reflexivity | exact Ed]. }
+    rewrite (HF s Hin Hd Hs0).
+    - unfold new_val. cbn [fst]. rewrite (sf_local_k _ Em). f_equal.
+      rewrite (maxl_set_ext _ (fun y => fst (vals_of g' y)) _ _ Hset).
+      f_equal. apply map_ext. intros y. rewrite sf_vals_of. reflexivity.
+    - intros y Hyc Hys. apply (Hy y); [apply Hset; exact Hyc|].
+      apply sf_seed0; [exact Hys | apply Hmem; apply Hset; exact Hyc].
+  Qed.
+End SubtreeFlip.
+
+Lemma flag_keys_rows c ks g r : In r (g_steps (flag_keys c ks g)) -> mem_N (s_key r) ks = true ->
+  has_flag c r = true.
+Proof.
+  rewrite flag_keys_mapg. unfold mapg. cbn [g_steps with_steps]. intros Hin Hm.
+  apply in_map_iff in Hin. destruct Hin as [r0 [<- _]].
+  assert (Hk : s_key (flagF c ks r0) = s_key r0) by apply (k_key _ (of_keeps _ (flagF_only_flags c ks))).
+  rewrite Hk in Hm. unfold flagF. rewrite Hm. destruct c; reflexivity.
+Qed.
+
+Lemma flag_keys_rows_mono c c' ks g r : In r (g_steps (flag_keys c ks g)) ->
+  exists r0, In r0 (g_steps g) /\ s_key r = s_key r0 /\ (has_flag c' r0 = true -> has_flag c' r = true).
+Proof.
+  rewrite flag_keys_mapg. unfold mapg. cbn [g_steps with_steps]. intros Hin.
+  apply in_map_iff in Hin. destruct Hin as [r0 [<- Hin]]. exists r0. split; [exact Hin|].
+  split; [apply (k_key _ (of_keeps _ (flagF_only_flags c ks)))|].
+  apply has_flag_mono. apply flagF_only_flags.
+Qed.
+
+Lemma mem_cons x k l : mem_N x (k :: l) = (x =? k) || mem_N x l.
+Proof. reflexivity. Qed.
+
+Lemma mem_single x k : mem_N x [k] = (x =? k).
+Proof. unfold mem_N. cbn [existsb]. apply orb_false_r. Qed.
+
+Lemma find_step_exists g x : (exists r, In r (g_steps g) /\ s_key r = x) -> find_step g x <> None.
+Proof.
+  intros [r [Hin Hk]] E. unfold find_step in E. eapply find_none in E; [|exact Hin].
+  cbn in E. rewrite Hk, N.eqb_refl in E. discriminate.
+Qed.
+
+Lemma in_step_subtree g k x : (exists r, In r (g_steps g) /\ s_key r = x) -> mem_N x (k :: below g k) = true ->
+  In x (step_subtree g k).
+Proof.
+  intros Hex Hm. unfold step_subtree. apply mem_N_In in Hm. destruct Hm as [<-|Hm]; [left; reflexivity|].
+  right. apply filter_In. split; [exact Hm|]. pose proof (find_step_exists g x Hex).
+  destruct (find_step g x); [reflexivity | contradiction].
+Qed.
+
+(* the three stages of Step.reattach up to the flags *)
+Lemma reattach_drel g k c cdet :
+  drel_ex k (fun x d => if mem_N x (k :: below g k) then cdet else d)
+            (fun x d => if mem_N x (k :: below g k) then cdet else d) g (reattach_step g k c cdet).
+Proof.
+  unfold reattach_step.
+  set (g0 := set_detached_nodes g [k] cdet).
+  set (g1 := with_steps g0 (map (fun s => if s_key s =? k then set_place s cdet (Some c) else s) (g_steps g0))).
+  assert (R1 : drel_ex k (fun x d => if x =? k then cdet else if mem_N x [k] then cdet else d)
+                         (fun x d => if mem_N x [k] then cdet else d) g g1).
+  { eapply drel_phi_ext; [| |eapply drel_trans; [apply drel_set_detached | apply drel_set_place]]; reflexivity. }
+  assert (Hb : below g1 k = below g k) by (eapply below_drel; exact R1).
+  rewrite Hb.
+  eapply drel_phi_ext; [| |eapply drel_trans; [eapply drel_trans; [exact R1 | apply drel_set_detached] | apply drel_flag_with_products]].
+  - intros x d. cbv beta. rewrite (mem_cons x k (below g k)), ?mem_single.
+    destruct (x =? k), (mem_N x (below g k)); reflexivity.
+  - intros x d. cbv beta. rewrite (mem_cons x k (below g k)), ?mem_single.
+    destruct (x =? k), (mem_N x (below g k)); reflexivity.
+Qed.
+
+Theorem reattach_step_need_sound g k c cdet :
+  WF g ->
+  (forall d f, In d (g_deps g) -> find_file g (d_snk d) = Some f ->
+     mem_N (f_key f) (k :: below g k) = true -> mem_N (d_src d) (k :: below g k) = true) ->
+  (cdet = true -> forall s, In s (g_steps g) -> mem_N (s_key s) (k :: below g k) = true -> s_detached s = true) ->
+  FlagInv_need g -> FlagInv_need (reattach_step g k c cdet).
+Proof.
+  intros Hwf Hout Hdet HF. destruct (reattach_drel g k c cdet) as [F [H [O R]]].
+  destruct cdet.
+  - apply (detach_like_need_sound g _ k (k :: below g k) true F H O R Hout eq_refl); [|exact HF].
+    intros p y Hp Hdp Hmp Hyc Hmy. exfalso.
+    apply cons_keys_spec in Hyc. destruct Hyc as [d1 [d2 [sy [_ [_ [_ [_ [Ef [Ed ->]]]]]]]]].
+    apply find_step_some in Ef. destruct Ef as [Hsy _].
+    rewrite (Hdet eq_refl sy Hsy Hmy) in Ed. discriminate.
+  - apply (attach_like_need_sound g _ k (k :: below g k) false F H O R Hout eq_refl); [|exact HF].
+    intros r' Hr' Hm.
+    assert (Hex : exists r, In r (g_steps g) /\ s_key r = s_key r').
+    { pose proof Hr' as Hr''. rewrite (dr_steps R) in Hr''. apply in_map_iff in Hr''.
+      destruct Hr'' as [r0 [<- Hr0]]. exists r0. split; [exact Hr0 | symmetry; apply (dr_key R)]. }
+    (* the rows of S are flagged by flag_with_products on the last stage *)
+    unfold reattach_step in Hr' |- *.
+    set (g0 := set_detached_nodes g [k] false) in *.
+    set (g1 := with_steps g0 (map (fun s => if s_key s =? k then set_place s false (Some c) else s) (g_steps g0))) in *.
+    set (g2 := set_detached_nodes g1 (below g1 k) false) in *.
+    assert (R2 : drel_ex k (fun x d => if mem_N x (below g1 k) then false else if x =? k then false else if mem_N x [k] then false else d)
+                           (fun x d => if mem_N x (below g1 k) then false else if mem_N x [k] then false else d) g g2).
+    { eapply drel_phi_ext; [| |eapply drel_trans; [eapply drel_trans; [apply drel_set_detached | apply drel_set_place] | apply drel_set_detached]]; reflexivity. }
+    unfold flag_with_products in Hr'.
+    apply (flag_keys_rows FAfter (step_subtree g2 k) _ r' Hr').
+    apply mem_N_In. rewrite (step_subtree_drel k _ _ g g2 R2).
+    apply in_step_subtree; [exact Hex | exact Hm].
+Qed.
+
+(* Step.detach: which nodes become detached *)
+Definition detach_set (g : graph) (k : N) : list N :=
+  match find_step g k with
+  | None => []
+  | Some s0 => match s_creator s0 with
+               | None => []
+               | Some _ => if s_detached s0 then [k] else k :: below g k
+               end
+  end.
+
+Lemma detach_stage_drel g k s0 :
+  find_step g k = Some s0 ->
+  let g2 := match s_creator s0 with
+            | None => g
+            | Some _ =>
+                let sub := below g k in
+                let g1 := set_detached_nodes g [k] true in
+                let g1' := with_steps g1 (map (fun s => if s_key s =? k then set_place s true None else s) (g_steps g1)) in
+                if s_detached s0 then g1' else set_detached_nodes g1' sub true
+            end in
+  drel_ex k (fun x d => if mem_N x (detach_set g k) then true else d)
+            (fun x d => if mem_N x (detach_set g k) then true else d) g g2.
+Proof.
+  intros E0. unfold detach_set. rewrite E0. cbv zeta.
+  destruct (s_creator s0).
+  - assert (R1 : drel_ex k (fun x d => if x =? k then true else if mem_N x [k] then true else d)
+                           (fun x d => if mem_N x [k] then true else d) g
+                   (with_steps (set_detached_nodes g [k] true)
+                      (map (fun s => if s_key s =? k then set_place s true None else s)
+                           (g_steps (set_detached_nodes g [k] true))))).
+    { eapply drel_phi_ext; [| |eapply drel_trans; [apply drel_set_detached | apply drel_set_place]]; reflexivity. }
+    destruct (s_detached s0).
+    + eapply drel_phi_ext; [| |exact R1]; intros x d; cbv beta; rewrite ?mem_single; destruct (x =? k); reflexivity.
+    + eapply drel_phi_ext; [| |eapply drel_trans; [exact R1 | apply drel_set_detached]];
+        intros x d; cbv beta; rewrite (mem_cons x k (below g k)), ?mem_single;
+        destruct (x =? k), (mem_N x (below g k)); reflexivity.
+  - eapply drel_phi_ext; [| |apply drel_refl]; reflexivity.
+Qed.
+
+Theorem detach_step_need_sound g k :
+  WF g ->
+  (forall f, In f (g_files g) -> f_key f <> k) ->
+  (forall d f, In d (g_deps g) -> find_file g (d_snk d) = Some f ->
+     mem_N (f_key f) (k :: below g k) = true -> mem_N (d_src d) (k :: below g k) = true) ->
+  FlagInv_need g -> FlagInv_need (detach_step g k).
+Proof.
+  intros Hwf Hnofile Hout HF. unfold detach_step.
+  destruct (find_step g k) as [s0|] eqn:E0; [|exact HF].
+  pose proof (detach_stage_drel g k s0 E0) as R2. cbv zeta in R2.
+  set (g2 := match s_creator s0 with Some _ => _ | None => g end) in *.
+  set (gX := flag_with_products g2 k).
+  assert (RX : drel_ex k (fun x d => if mem_N x (detach_set g k) then true else d)
+                         (fun x d => if mem_N x (detach_set g k) then true else d) g gX).
+  { eapply drel_phi_ext; [| |eapply drel_trans; [exact R2 | apply drel_flag_with_products]]; reflexivity. }
+  assert (RF : drel_ex k (fun x d => if mem_N x (detach_set g k) then true else d)
+                         (fun x d => if mem_N x (detach_set g k) then true else d) g (flag_after_sources gX k)).
+  { unfold flag_after_sources.
+    eapply drel_phi_ext; [| |eapply drel_trans; [exact RX | apply drel_flag_keys]]; reflexivity. }
+  destruct RF as [F [H [O R]]].
+  assert (Hsub : forall x, mem_N x (detach_set g k) = true -> mem_N x (k :: below g k) = true).
+  { intros x. unfold detach_set. rewrite E0. destruct (s_creator s0); [|discriminate].
+    destruct (s_detached s0); [|auto]. rewrite mem_single, mem_cons. intros ->. reflexivity. }
+  apply (detach_like_need_sound g _ k (detach_set g k) true F H O R); [| reflexivity | | exact HF].
+  - (* outputs *)
+    intros d f Hd Hf Hm. pose proof (Hsub _ Hm) as Hm'.
+    revert Hm. unfold detach_set. rewrite E0. destruct (s_creator s0); [|discriminate].
+    destruct (s_detached s0); [|intros _; apply (Hout d f Hd Hf Hm')].
+    intros Hm. exfalso. rewrite mem_single in Hm. apply N.eqb_eq in Hm.
+    unfold find_file in Hf. apply find_some in Hf. apply (Hnofile f); tauto.
+  - (* producers of consumers that become detached are flagged by RECURSIVE_CHECK_AFTER_SOURCES *)
+    intros p y Hp Hdp Hmp Hyc Hmy r' Hr' Hkr.
+    pose proof Hyc as Hyc'. apply cons_keys_spec in Hyc'.
+    destruct Hyc' as [d1 [d2 [sy [Hd1 [Hd2 [E1 [E2 [Ef [Ed Ey]]]]]]]]].
+    pose proof (find_step_some g _ _ Ef) as [Hsy Eky].
+    (* y is a step of the subtree that was attached: only possible in the third case *)
+    assert (Hcase : detach_set g k = k :: below g k).
+    { revert Hmy. unfold detach_set. rewrite E0. destruct (s_creator s0); [|discriminate].
+      destruct (s_detached s0) eqn:Ed0; [|reflexivity]. intros Hmy. exfalso.
+      rewrite mem_single in Hmy. apply N.eqb_eq in Hmy.
+      assert (Es : sy = s0) by (rewrite <- Eky, <- Ey, Hmy in Ef; congruence).
+      congruence. }
+    unfold flag_after_sources in Hr'.
+    apply (flag_keys_rows FAfter _ gX r' Hr').
+    apply mem_N_In. apply filter_In. split.
+    + apply in_flat_map. exists y. split.
+      * destruct RX as [FX [HX [OX RX]]].
+        rewrite (step_subtree_drel k _ _ g gX (ex_intro _ FX (ex_intro _ HX (ex_intro _ OX RX)))).
+        apply in_step_subtree; [exists sy; split; [exact Hsy | congruence] | rewrite <- Hcase; exact Hmy].
+      * destruct RX as [FX [HX [OX RX]]]. unfold producers_of_node. rewrite (dr_deps RX).
+        apply in_flat_map. exists (d_src d2). split.
+        -- apply in_map_iff. exists d2. split; [reflexivity|]. apply filter_In. split; [exact Hd2|].
+           apply N.eqb_eq. congruence.
+        -- apply in_map_iff. exists d1. split; [congruence|]. apply filter_In. split; [exact Hd1|].
+           apply N.eqb_eq. congruence.
+    + destruct RX as [FX [HX [OX RX]]]. rewrite Hkr.
+      rewrite (find_step_drel k _ _ g gX FX HX OX _ RX), (find_step_in g p Hwf Hp). cbn [option_map].
+      rewrite (dr_sdet RX), Hmp, Hdp. reflexivity.
+Qed.
+
+(* with the repository's node-detached trigger *)
+Theorem detach_step_sound_repo g k :
+  WF g ->
+  (forall f, In f (g_files g) -> f_key f <> k) ->
+  (forall d f, In d (g_deps g) -> find_file g (d_snk d) = Some f ->
+     mem_N (f_key f) (k :: below g k) = true -> mem_N (d_src d) (k :: below g k) = true) ->
+  FlagInv g -> FlagInv (detach_step g k).
+Proof.
+  intros Hwf Hnf Hout [HFs [HFn HFr]]. split; [|split].
+  - apply detach_step_safe_sound. exact HFs.
+  - apply detach_step_need_sound; assumption.
+  - apply detach_step_ready_sound; [apply has_stmt_In; vm_compute; reflexivity | exact HFr].
+Qed.
+
+Theorem reattach_step_sound_repo g k c cdet :
+  WF g ->
+  (forall d f, In d (g_deps g) -> find_file g (d_snk d) = Some f ->
+     mem_N (f_key f) (k :: below g k) = true -> mem_N (d_src d) (k :: below g k) = true) ->
+  (cdet = true -> forall s, In s (g_steps g) -> mem_N (s_key s) (k :: below g k) = true -> s_detached s = true) ->
+  FlagInv g -> FlagInv (reattach_step g k c cdet).
+Proof.
+  intros Hwf Hout Hdet [HFs [HFn HFr]]. split; [|split].
+  - apply reattach_step_safe_sound. exact HFs.
+  - apply reattach_step_need_sound; assumption.
+  - apply reattach_step_ready_sound; [apply has_stmt_In; vm_compute; reflexivity | exact HFr].
+Qed.
+
+(* ------------------------------------------------------------------------------------------ *)
+(* File.detach                                                                                *)
+(* ------------------------------------------------------------------------------------------ *)
+
+Definition fplaceF (k : N) (f : file) : file := if f_key f =? k then set_fplace f true None else f.
+
+Lemma drel_set_fplace k g :
+  drel_ex k (fun _ d => d) (fun x d => if x =? k then true else d) g
+    (with_files g (map (fplaceF k) (g_files g))).
+Proof.
+  exists (fun s => s), (fplaceF k), (fun o => o).
+  constructor; try reflexivity; try (symmetry; apply map_id); auto;
+    try (intros f; unfold fplaceF; destruct (f_key f =? k) eqn:E; auto; fail).
+  intros f Hf. unfold fplaceF. destruct (f_key f =? k) eqn:E; [apply N.eqb_eq in E; contradiction | reflexivity].
+Qed.
+
+Definition detach_file_set (g : graph) (k : N) : list N :=
+  match find_file g k with
+  | None => []
+  | Some f0 => match f_creator f0 with
+               | None => []
+               | Some _ => if f_detached f0 then [k] else k :: below g k
+               end
+  end.
+
+Lemma detach_file_drel g k :
+  drel_ex k (fun x d => if mem_N x (detach_file_set g k) then true else d)
+            (fun x d => if mem_N x (detach_file_set g k) then true else d) g (detach_file g k).
+Proof.
+  unfold detach_file, detach_file_set. destruct (find_file g k) as [f0|];
+    [|eapply drel_phi_ext; [| |apply drel_refl]; reflexivity].
+  destruct (f_creator f0); [|eapply drel_phi_ext; [| |apply drel_refl]; reflexivity].
+  change (map (fun f => if f_key f =? k then set_fplace f true None else f)) with (map (fplaceF k)).
+  assert (R1 : drel_ex k (fun x d => if mem_N x [k] then true else d)
+                         (fun x d => if x =? k then true else if mem_N x [k] then true else d) g
+                 (with_files (set_detached_nodes g [k] true)
+                    (map (fplaceF k) (g_files (set_detached_nodes g [k] true))))).
+  { eapply drel_phi_ext; [| |eapply drel_trans; [apply drel_set_detached | apply drel_set_fplace]]; reflexivity. }
+  destruct (f_detached f0).
+  - eapply drel_phi_ext; [| |exact R1]; intros x d; cbv beta; rewrite ?mem_single; destruct (x =? k); reflexivity.
+  - eapply drel_phi_ext; [| |eapply drel_trans; [exact R1 | apply drel_set_detached]];
+      intros x d; cbv beta; rewrite (mem_cons x k (below g k)), ?mem_single;
+      destruct (x =? k), (mem_N x (below g k)); reflexivity.
+Qed.
+
+(* no step row lives in the set of nodes that File.detach touches *)
+Definition no_step_in (g : graph) (S : list N) : Prop :=
+  forall s, In s (g_steps g) -> mem_N (s_key s) S = false.
+
+Theorem detach_file_need_sound g k :
+  no_step_in g (k :: below g k) ->
+  (forall d f, In d (g_deps g) -> find_file g (d_snk d) = Some f -> mem_N (f_key f) (k :: below g k) = false) ->
+  FlagInv_need g -> FlagInv_need (detach_file g k).
+Proof.
+  intros Hns Hout HF. destruct (detach_file_drel g k) as [F [H [O R]]].
+  assert (Hsub : forall x, mem_N x (detach_file_set g k) = true -> mem_N x (k :: below g k) = true).
+  { intros x. unfold detach_file_set. destruct (find_file g k) as [f0|]; [|discriminate].
+    destruct (f_creator f0); [|discriminate]. destruct (f_detached f0); [|auto].
+    rewrite mem_single, mem_cons. intros ->. reflexivity. }
+  apply (detach_like_need_sound g _ k (detach_file_set g k) true F H O R); [| reflexivity | | exact HF].
+  - intros d f Hd Hf Hm. exfalso. pose proof (Hsub _ Hm) as Hx. rewrite (Hout d f Hd Hf) in Hx. discriminate.
+  - intros p y Hp _ _ Hyc Hmy. exfalso.
+    apply cons_keys_spec in Hyc. destruct Hyc as [d1 [d2 [sy [_ [_ [_ [_ [Ef [_ ->]]]]]]]]].
+    apply find_step_some in Ef. destruct Ef as [Hsy _].
+    pose proof (Hsub _ Hmy) as Hx. rewrite (Hns sy Hsy) in Hx. discriminate.
+Qed.
+
+Lemma place_rel_with_files k g l : place_rel k g (with_files g l).
+Proof. exists (fun s => s). split; [symmetry; apply map_id | constructor; auto]. Qed.
+
+Lemma detach_file_place_rel g k : place_rel k g (detach_file g k).
+Proof.
+  unfold detach_file. destruct (find_file g k) as [f0|]; [|apply place_rel_refl].
+  destruct (f_creator f0); [|apply place_rel_refl].
+  assert (R1 : place_rel k g (with_files (set_detached_nodes g [k] true)
+             (map (fun f => if f_key f =? k then set_fplace f true None else f) (g_files (set_detached_nodes g [k] true)))))
+    by (eapply place_rel_trans; [apply place_rel_set_detached | apply place_rel_with_files]).
+  destruct (f_detached f0); [exact R1|]. eapply place_rel_trans; [exact R1 | apply place_rel_set_detached].
+Qed.
+
+(* steps keep their creators too when no step row has the id k *)
+Theorem detach_file_safe_sound g k :
+  (forall s, In s (g_steps g) -> s_key s <> k) -> FlagInv_safe g -> FlagInv_safe (detach_file g k).
+Proof.
+  intros Hns HF. destruct (detach_file_place_rel g k) as [F [E P]].
+  apply (FlagInv_safe_steps_only (mapg F g)); [symmetry; exact E|].
+  apply FlagInv_safe_mono; [|exact HF]. constructor; try apply P.
+  intros s Hin _. unfold ok_h, ok_nh. rewrite (pm_state k F P), (pm_holding k F P), (pm_creator k F P s (Hns s Hin)).
+  repeat split; reflexivity.
+Qed.
+
+Lemma ready_with_fplace g k :
+  (forall f, In f (g_files g) -> f_key f = k -> f_detached f = true) ->
+  FlagInv_ready g -> FlagInv_ready (with_files g (map (fplaceF k) (g_files g))).
+Proof.
+  intros Hdet HF s Hin Hc. change (In s (g_steps g)) in Hin. rewrite (HF s Hin Hc). symmetry.
+  apply ready_spec_ext; [reflexivity|]. intros e _ _.
+  unfold unavailable, find_file. cbn [g_files with_files].
+  rewrite find_file_mapf by (intros f; unfold fplaceF; destruct (f_key f =? k); reflexivity).
+  destruct (find (fun f => f_key f =? d_src e) (g_files g)) as [f|] eqn:Ef; [|reflexivity].
+  cbn [option_map]. apply find_some in Ef. destruct Ef as [Hf _].
+  unfold fplaceF. destruct (f_key f =? k) eqn:Ek; [|reflexivity]. apply N.eqb_eq in Ek.
+  unfold ienv, set_fplace. cbn. rewrite (Hdet f Hf Ek). reflexivity.
+Qed.
+
+Theorem detach_file_ready_sound g k :
+  In (FReady, TConsumersOfSelf) trg_node_detached -> FlagInv_ready g -> FlagInv_ready (detach_file g k).
+Proof.
+  intros Htrg HF. unfold detach_file. destruct (find_file g k) as [f0|]; [|exact HF].
+  destruct (f_creator f0); [|exact HF].
+  change (map (fun f => if f_key f =? k then set_fplace f true None else f)) with (map (fplaceF k)).
+  assert (H1 : FlagInv_ready (with_files (set_detached_nodes g [k] true)
+                 (map (fplaceF k) (g_files (set_detached_nodes g [k] true))))).
+  { apply ready_with_fplace; [|apply set_detached_nodes_ready_sound; assumption].
+    destruct (drel_set_detached k g [k] true) as [F [H [O R]]].
+    intros f Hf Ek. rewrite (dr_files R) in Hf. apply in_map_iff in Hf. destruct Hf as [f1 [<- _]].
+    rewrite (dr_fdet R). rewrite (dr_fkey R) in Ek. rewrite Ek, mem_single, N.eqb_refl. reflexivity. }
+  destruct (f_detached f0); [exact H1|]. apply set_detached_nodes_ready_sound; assumption.
+Qed.
+
+Theorem detach_file_sound_repo g k :
+  no_step_in g (k :: below g k) ->
+  (forall d f, In d (g_deps g) -> find_file g (d_snk d) = Some f -> mem_N (f_key f) (k :: below g k) = false) ->
+  FlagInv g -> FlagInv (detach_file g k).
+Proof.
+  intros Hns Hout [HFs [HFn HFr]]. split; [|split].
+  - apply detach_file_safe_sound; [|exact HFs]. intros s Hs E.
+    pose proof (Hns s Hs) as Hx. rewrite mem_cons, E, N.eqb_refl in Hx. discriminate.
+  - apply detach_file_need_sound; assumption.
+  - apply detach_file_ready_sound; [apply has_stmt_In; vm_compute; reflexivity | exact HFr].
+Qed.
+
+(* ------------------------------------------------------------------------------------------ *)
+(* Sequences of primitives                                                                    *)
+(* ------------------------------------------------------------------------------------------ *)
+
+Definition same_keys (g g' : graph) : Prop := map s_key (g_steps g') = map s_key (g_steps g).
+
+Lemma same_keys_map g g' F : g_steps g' = map F (g_steps g) -> (forall s, s_key (F s) = s_key s) -> same_keys g g'.
+Proof. intros E K. unfold same_keys. rewrite E. apply map_key_map. exact K. Qed.
+
+Lemma same_keys_WF g g' : same_keys g g' -> WF g -> WF g'.
+Proof. unfold same_keys, WF. intros ->. auto. Qed.
+
+Lemma same_keys_place_rel k g g' : place_rel k g g' -> same_keys g g'.
+Proof. intros [F [E P]]. eapply same_keys_map; [exact E | apply P]. Qed.
+
+Lemma detach_step_place_rel g k : place_rel k g (detach_step g k).
+Proof.
+  unfold detach_step. destruct (find_step g k) as [s0|]; [|apply place_rel_refl].
+  set (g2 := match s_creator s0 with Some _ => _ | None => g end).
+  assert (R2 : place_rel k g g2).
+  { unfold g2. destruct (s_creator s0); [|apply place_rel_refl].
+    assert (R1 : place_rel k g (with_steps (set_detached_nodes g [k] true)
+               (map (fun s => if s_key s =? k then set_place s true None else s)
+                    (g_steps (set_detached_nodes g [k] true))))).
+    { eapply place_rel_trans; [apply place_rel_set_detached | apply place_rel_set_place]. }
+    destruct (s_detached s0); [exact R1|].
+    eapply place_rel_trans; [exact R1 | apply place_rel_set_detached]. }
+  eapply place_rel_trans; [exact R2|].
+  eapply place_rel_trans; [apply place_rel_flag_with_products|].
+  unfold flag_after_sources. apply place_rel_flag_keys.
+Qed.
+
+Lemma reattach_step_place_rel g k c cdet : place_rel k g (reattach_step g k c cdet).
+Proof.
+  unfold reattach_step.
+  eapply place_rel_trans; [apply place_rel_set_detached|].
+  eapply place_rel_trans; [apply place_rel_set_place|].
+  eapply place_rel_trans; [apply place_rel_set_detached|].
+  apply place_rel_flag_with_products.
+Qed.
+
+Lemma same_keys_mapg F g : (forall s, s_key (F s) = s_key s) -> same_keys g (mapg F g).
+Proof. intros K. eapply same_keys_map; [reflexivity | exact K]. Qed.
+
+Lemma same_keys_trans g g1 g2 : same_keys g g1 -> same_keys g1 g2 -> same_keys g g2.
+Proof. unfold same_keys. congruence. Qed.
+
+Lemma same_keys_trigger body self d g : same_keys g (run_trigger body self d g).
+Proof. rewrite run_trigger_mapg. apply same_keys_mapg. apply (k_key _ (of_keeps _ (trigF_only_flags g body self d))). Qed.
+
+Lemma same_keys_hold g k : same_keys g (hold_step g k).
+Proof.
+  unfold hold_step. destruct (find_step g k) as [s0|]; [|reflexivity].
+  assert (H1 : same_keys g (with_steps g (map (fun s => if s_key s =? k then set_life s (s_state s) (s_deferred s) (s_defer_count s) (s_holding s + 1) else s) (g_steps g)))).
+  { eapply same_keys_map; [reflexivity|]. intros s. cbv beta. destruct (s_key s =? k); reflexivity. }
+  destruct (s_holding s0 =? 0); [|exact H1].
+  eapply same_keys_trans; [exact H1|]. rewrite flag_with_products_mapg. apply same_keys_mapg.
+  apply (k_key _ (of_keeps _ (subtreeF_only_flags _))).
+Qed.
+
+Lemma same_keys_release g k g' : release_step g k = Some g' -> same_keys g g'.
+Proof.
+  unfold release_step. destruct (find_step g k) as [s0|]; [|discriminate].
+  destruct (s_holding s0 =? 0); [discriminate|]. intros E. injection E as <-.
+  assert (H1 : same_keys g (with_steps g (map (fun s => if s_key s =? k then set_life s (s_state s) (s_deferred s) (s_defer_count s) (s_holding s - 1) else s) (g_steps g)))).
+  { eapply same_keys_map; [reflexivity|]. intros s. cbv beta. destruct (s_key s =? k); reflexivity. }
+  destruct (s_holding s0 =? 1); [|exact H1].
+  eapply same_keys_trans; [exact H1|]. rewrite flag_with_products_mapg. apply same_keys_mapg.
+  apply (k_key _ (of_keeps _ (subtreeF_only_flags _))).
+Qed.
+
+Lemma same_keys_set_state g k st df : same_keys g (set_step_state g k st df).
+Proof.
+  rewrite set_step_state_mapg. apply same_keys_mapg. intros s.
+  rewrite (k_key _ (of_keeps _ (trigF_only_flags _ trg_step_state k None))). apply stateF_key.
+Qed.
+
+Lemma same_keys_ins_dep g d : same_keys g (ins_dep g d).
+Proof.
+  unfold ins_dep, ins_dep_with.
+  assert (H1 : same_keys g (run_trigger trg_dep_ins 0 (Some d) (with_deps g (g_deps g ++ [mkDep (d_src d) (d_snk d) false]))))
+    by (eapply same_keys_trans; [|apply same_keys_trigger]; reflexivity).
+  destruct (d_dyn d); [|exact H1].
+  eapply same_keys_trans; [exact H1|]. eapply same_keys_trans; [|apply same_keys_trigger]. reflexivity.
+Qed.
+
+Lemma same_keys_del_dep g d : same_keys g (del_dep g d).
+Proof.
+  unfold del_dep, del_dep_with. eapply same_keys_trans; [|apply same_keys_trigger].
+  destruct (d_dyn d); [|reflexivity].
+  eapply same_keys_trans; [|unfold same_keys; cbn [g_steps with_deps]; reflexivity].
+  eapply same_keys_trans; [|apply same_keys_trigger]. reflexivity.
+Qed.
+
+Lemma same_keys_set_file_state g k st h : same_keys g (set_file_state g k st h).
+Proof.
+  destruct (set_file_state_steps g k st h) as [F [O E]].
+  eapply same_keys_map; [exact E | apply (k_key _ (of_keeps _ O))].
+Qed.
+
+Lemma NoDup_app_fresh (l : list N) k : ~ In k l -> NoDup l -> NoDup (l ++ [k]).
+Proof.
+  intros Hk Hnd. induction Hnd as [|a l Ha Hnd IH]; cbn [app]; [constructor; [intros []|constructor]|].
+  constructor.
+  - intros Hin. apply in_app_or in Hin. destruct Hin as [Hin|[<-|[]]]; [contradiction|]. apply Hk. left. reflexivity.
+  - apply IH. intros Hin. apply Hk. right. exact Hin.
+Qed.
+
+Definition prim_ok (g : graph) (p : prim) : Prop :=
+  match p with
+  | PSetState _ _ _ | PHold _ | PRelease _ | PInsDep _ | PDelDep _ => True
+  | PSetFileState k st _ =>
+      forall f, In f (g_files g) -> f_key f = k -> (f_state f =? FS_VOLATILE) = (st =? FS_VOLATILE)
+  | PDetach k =>
+      (forall f, In f (g_files g) -> f_key f <> k) /\
+      (forall d f, In d (g_deps g) -> find_file g (d_snk d) = Some f ->
+         mem_N (f_key f) (k :: below g k) = true -> mem_N (d_src d) (k :: below g k) = true)
+  | PDetachFile k =>
+      no_step_in g (k :: below g k) /\
+      (forall d f, In d (g_deps g) -> find_file g (d_snk d) = Some f -> mem_N (f_key f) (k :: below g k) = false)
+  | PReattach k _ cdet =>
+      (forall d f, In d (g_deps g) -> find_file g (d_snk d) = Some f ->
+         mem_N (f_key f) (k :: below g k) = true -> mem_N (d_src d) (k :: below g k) = true) /\
+      (cdet = true -> forall s, In s (g_steps g) -> mem_N (s_key s) (k :: below g k) = true -> s_detached s = true)
+  | PCreate k creator det need safe stored dur res =>
+      ~ In k (map s_key (g_steps g)) /\
+      (forall d, In d (g_deps g) -> d_src d <> k /\ d_snk d <> k) /\
+      (forall s, In s (g_steps g) -> s_creator s <> Some k) /\
+      (exists rank, CreatorRank g rank) /\
+      (safe = true ->
+       creator_step (create_step g k creator det need safe stored dur res)
+         (mkStep k init_state need false 0 0 det creator safe safe need false stored stored
+                 (negb safe) true true dur 1 res) = None)
+  end.
+
+Fixpoint run_ok (g : graph) (l : list prim) : Prop :=
+  match l with
+  | [] => True
+  | p :: r => prim_ok g p /\ forall g1, apply_prim g p = Some g1 -> run_ok g1 r
+  end.
+
+Lemma apply_prim_sound g p g1 :
+  WF g -> FlagInv g -> prim_ok g p -> apply_prim g p = Some g1 -> WF g1 /\ FlagInv g1.
+Proof.
+  intros Hwf HF Hok E. destruct p; cbn [apply_prim prim_ok] in *; try (injection E as <-).
+  - split; [eapply same_keys_WF; [apply same_keys_set_state | exact Hwf] | apply set_step_state_sound_repo; exact HF].
+  - split; [eapply same_keys_WF; [apply same_keys_hold | exact Hwf] | apply hold_step_sound; assumption].
+  - split; [eapply same_keys_WF; [eapply same_keys_release; exact E | exact Hwf] | eapply release_step_sound; eassumption].
+  - split; [eapply same_keys_WF; [apply same_keys_ins_dep | exact Hwf] | apply ins_dep_sound_repo; assumption].
+  - split; [eapply same_keys_WF; [apply same_keys_del_dep | exact Hwf] | apply del_dep_sound_full_repo; assumption].
+  - split; [eapply same_keys_WF; [apply same_keys_set_file_state | exact Hwf]|].
+    destruct HF as [HFs [HFn HFr]].
+    destruct (set_file_state_sound_repo g k st h (conj HFs HFr)) as [H1 H2].
+    split; [exact H1|]. split; [apply set_file_state_need_sound; assumption | exact H2].
+  - destruct Hok as [H1 H2].
+    split; [eapply same_keys_WF; [eapply same_keys_place_rel; apply detach_step_place_rel | exact Hwf]
+           | apply detach_step_sound_repo; assumption].
+  - destruct Hok as [H1 H2].
+    split; [eapply same_keys_WF; [eapply same_keys_place_rel; apply detach_file_place_rel | exact Hwf]
+           | apply detach_file_sound_repo; assumption].
+  - destruct Hok as [H1 H2].
+    split; [eapply same_keys_WF; [eapply same_keys_place_rel; apply reattach_step_place_rel | exact Hwf]
+           | apply reattach_step_sound_repo; assumption].
+  - destruct Hok as [H1 [H2 [H3 [[rank HR] H4]]]]. split.
+    + unfold WF, create_step. cbn [g_steps with_steps]. rewrite map_app. cbn [map s_key].
+      apply NoDup_app_fresh; assumption.
+    + destruct HF as [HFs [HFn HFr]]. split; [|split].
+      * eapply create_step_safe_sound; eassumption.
+      * apply create_step_need_sound; assumption.
+      * apply create_step_ready_sound; assumption.
+Qed.
+
+(* Any sequence of the modelled primitives, each applied where its side condition holds, keeps the
+   flag invariant: a composite operation that decomposes into them cannot leave a stale cached
+   value unflagged. *)
+Theorem prims_preserve_FlagInv l : forall g g',
+  WF g -> FlagInv g -> run_ok g l -> run_prims g l = Some g' -> WF g' /\ FlagInv g'.
+Proof.
+  induction l as [|p r IH]; intros g g' Hwf HF Hok E.
+  - cbn in E. injection E as <-. split; assumption.
+  - cbn [run_prims] in E. destruct (apply_prim g p) as [g1|] eqn:Ep; [|discriminate].
+    destruct Hok as [Hp Hr].
+    destruct (apply_prim_sound g p g1 Hwf HF Hp Ep) as [Hwf1 HF1].
+    apply (IH g1 g' Hwf1 HF1 (Hr g1 Ep) E).
+Qed.
+
+(* reflection of the decidable side conditions *)
+Lemma outputs_owned_refl g S : outputs_owned_b g S = true ->
+  forall d f, In d (g_deps g) -> find_file g (d_snk d) = Some f -> mem_N (f_key f) S = true -> mem_N (d_src d) S = true.
+Proof.
+  unfold outputs_owned_b. rewrite forallb_forall. intros H d f Hd Hf Hm.
+  specialize (H d Hd). rewrite Hf, Hm in H. exact H.
+Qed.
+Lemma no_edge_into_refl g S : no_edge_into_b g S = true ->
+  forall d f, In d (g_deps g) -> find_file g (d_snk d) = Some f -> mem_N (f_key f) S = false.
+Proof.
+  unfold no_edge_into_b. rewrite forallb_forall. intros H d f Hd Hf.
+  specialize (H d Hd). rewrite Hf in H. apply negb_true_iff in H. exact H.
+Qed.
+
+Lemma prim_ok_refl g p : prim_ok_b g p = true -> prim_ok g p.
+Proof.
+  destruct p; cbn [prim_ok_b prim_ok]; try (intros _; exact I); try discriminate.
+  - rewrite forallb_forall. intros H f Hf Ek. specialize (H f Hf).
+    apply N.eqb_eq in Ek. rewrite Ek in H. cbn in H. apply eqb_prop in H. exact H.
+  - intros H. apply andb_true_iff in H. destruct H as [H1 H2]. split.
+    + rewrite forallb_forall in H1. intros f Hf E. specialize (H1 f Hf). apply negb_true_iff in H1.
+      apply N.eqb_neq in H1. contradiction.
+    + apply outputs_owned_refl. exact H2.
+  - intros H. apply andb_true_iff in H. destruct H as [H1 H2]. split.
+    + rewrite forallb_forall in H1. intros s Hs. specialize (H1 s Hs). apply negb_true_iff in H1. exact H1.
+    + apply no_edge_into_refl. exact H2.
+  - intros H. apply andb_true_iff in H. destruct H as [H1 H2]. split.
+    + apply outputs_owned_refl. exact H1.
+    + intros -> s Hs Hm. cbn [negb orb] in H2. rewrite forallb_forall in H2. specialize (H2 s Hs).
+      rewrite Hm in H2. cbn in H2. exact H2.
+Qed.
+
+Lemma run_ok_refl l : forall g, run_ok_b g l = true -> run_ok g l.
+Proof.
+  induction l as [|p r IH]; intros g H; [exact I|].
+  cbn [run_ok_b run_ok] in *. apply andb_true_iff in H. destruct H as [H1 H2].
+  split; [apply prim_ok_refl; exact H1|]. intros g1 E. rewrite E in H2. apply IH. exact H2.
+Qed.
+
+Theorem prims_preserve_FlagInv_b l g g' :
+  WF g -> FlagInv g -> run_ok_b g l = true -> run_prims g l = Some g' -> WF g' /\ FlagInv g'.
+Proof. intros Hwf HF Hok E. eapply prims_preserve_FlagInv; try eassumption. apply run_ok_refl. exact Hok. Qed.
